@@ -188,6 +188,8 @@ def snapshot(path):
     for dirpath, dirnames, filenames in os.walk(path):
         dirnames[:] = sorted(d for d in dirnames if d not in SKIP_DIRS)
         for fn in sorted(filenames):
+            if fn in SKIP_DIRS:
+                continue      # `.git` as a file (linked worktree, --separate-git-dir): VCS metadata as well
             full = os.path.join(dirpath, fn)
             rel = os.path.relpath(full, path)
             if os.path.islink(full):
